@@ -29,7 +29,7 @@ ASSUMPTIONS = [
     "every data line carries the same number c of concrete numerals (unwrapped); paddings, LF/CRLF, final newline symbolic; numpy.genfromtxt is the validated contract stub of C02",
     "wrapped files (WRAP=YES, c = d values per depth step broken at a symbolic place): only rectangularity and absence of errors are required here; the cell mapping of wrapped files is C01's subject",
 ]
-WITNESS_TARGETS = ["more-columns-than-curves", "fewer-columns-than-curves", "no-declared-curves"]
+WITNESS_TARGETS = ["more-columns-than-curves", "fewer-columns-than-curves", "no-declared-curves", "data-section-followed-by-another-section"]
 EXCLUSIONS = {}
 
 
@@ -67,6 +67,7 @@ def harness(ns, params):
         split = fresh_int("split", 1, c)
         ek = fresh_int("extra_kind", 0, 2)  # none / comment line / blank line, at a symbolic position
         ep = fresh_int("extra_pos", 0, r)
+        af = fresh_int("after", 0, 1)  # ~A is the last section / is followed by ~Other (~Parameter after ~A: C02, C05)
         crlf_c, fnl_c, eng_c = bool(crlf), bool(fnl), ("numpy" if bool(eng) else "normal")
         hdr = DF.header(c, declared=d, wrap="YES" if wrap else "NO")
         # declared curves after the index get symbolic one-character mnemonics (letters and digits:
@@ -84,16 +85,18 @@ def harness(ns, params):
         if wrap:
             sp = split.__index__()
             sect = ["~ASCII"] + wrapped_lines(r, c, sp)
-            core.assume(z.And(z.eq_i(ek.e, 0), z.eq_i(ep.e, 0)))
+            core.assume(z.And(z.eq_i(ek.e, 0), z.eq_i(ep.e, 0), z.eq_i(af.e, 0)))
         else:
             core.assume(z.eq_i(split.e, 1))
             ekc = ["none", "comment", "blank"][ek.__index__()]
             epc = ep.__index__() if ekc != "none" else 0
             if ekc == "none":
                 core.assume(z.eq_i(ep.e, 0))
-            sect = DF.build_data_section(r, c, pcap, "last", ekc, epc, crlf_c, fnl_c)
+            afc = ["last", "O"][af.__index__()]
+            core.witness("data-section-followed-by-another-section", afc != "last" and c != d)
+            sect = DF.build_data_section(r, c, pcap, afc, ekc, epc, crlf_c, fnl_c)
         dlines = [l for l in sect[1:]]
-        inputs = {"d": d, "c": c, "r": r, "wrap": bool(wrap), "split": split, "crlf": crlf, "final_newline": fnl, "engine_numpy": eng, "data_lines": dlines, "names": names[1:], "extra_kind": ek, "extra_pos": ep}
+        inputs = {"d": d, "c": c, "r": r, "wrap": bool(wrap), "split": split, "crlf": crlf, "final_newline": fnl, "engine_numpy": eng, "data_lines": dlines, "names": names[1:], "extra_kind": ek, "extra_pos": ep, "after": af}
         cx = core.ctx()
         cx.inputs = inputs
         apply_exclusions(inputs)
